@@ -224,31 +224,34 @@ Notation pvalid := (pvalid Sg).
 Notation Good := (Good Sg py_str).
 
 (* table conditions (each is a decidable predicate over the package table, discharged by vm_compute on the instance) *)
+(* the covered part of the package: a set of classes GC and a set of hooked union types GU (everything else is outside the theorem) *)
+Variable GC : list string.
+Variable GU : list pty.
 Hypothesis T_extra : forbid_extra Sg = false.
-Hypothesis T_wires : forall c fs, lookup_cls Sg c = Some fs ->
+Hypothesis T_wires : forall c fs, mem c GC = true -> lookup_cls Sg c = Some fs ->
   NoDup (map fwire fs) /\ NoDup (map fname fs) /\ (forall f, In f fs -> fwireo f = fwire f /\ flat_ty (ftype f) = true).
-Hypothesis T_defaults : forall c fs f, lookup_cls Sg c = Some fs -> In f fs ->
+Hypothesis T_defaults : forall c fs f, mem c GC = true -> lookup_cls Sg c = Some fs -> In f fs ->
   match fdefault f with
   | DefaultNone => fval f = VNoVal \/ fvalopt f = true
   | DefaultStr _ => fomit f = false
   | NoDefault => True end.
 (* validators accept what the JSON-level reading accepts (shape condition on validated fields) *)
-Hypothesis T_val : forall c fs f v x n, lookup_cls Sg c = Some fs -> In f fs ->
+Hypothesis T_val : forall c fs f v x n, mem c GC = true -> lookup_cls Sg c = Some fs -> In f fs ->
   structure n (ftype f) v = Ok x -> jvalidate f v = true -> validate (fval f) (fvalopt f) x = true.
 
 (* unions that dispatch can handle: a registered hook, or Optional[x] *)
 Fixpoint handled (P : pty) : bool :=
   match P with
   | PyUnion ms => match lookup_uhook Sg P with
-                  | Some _ => true
+                  | Some _ => existsb (pty_eqb P) GU
                   | None => match ms with [x; PyNone] | [PyNone; x] => negb (is_none x) && handled_nu x | _ => false end end
-  | PySeq t => handled t | PyDict k v => handled k && handled v | PyTuple l => forallb handled l | PyFwd _ => false | _ => true end
+  | PySeq t => handled t | PyDict k v => handled k && handled v | PyTuple l => forallb handled l | PyFwd _ => false | PyCls c => mem c GC | _ => true end
 with handled_nu (P : pty) : bool :=
   match P with
   | PyUnion _ => false
-  | PySeq t => handled t | PyDict k v => handled k && handled v | PyTuple l => forallb handled l | PyFwd _ => false | _ => true end.
+  | PySeq t => handled t | PyDict k v => handled k && handled v | PyTuple l => forallb handled l | PyFwd _ => false | PyCls c => mem c GC | _ => true end.
 Definition okty (P : pty) : bool := flat_ty P && handled P.
-Hypothesis T_fields : forall c fs f, lookup_cls Sg c = Some fs -> In f fs -> okty (ftype f) = true.
+Hypothesis T_fields : forall c fs f, mem c GC = true -> lookup_cls Sg c = Some fs -> In f fs -> okty (ftype f) = true.
 
 
 (* what is required of a registered union hook (proved below for the key-dispatch fragment) *)
@@ -257,7 +260,7 @@ Definition HookOK (ms : list pty) (h : hook) : Prop :=
     (forall j' P', jsize j' < jsize j -> okty P' = true -> pvalid P' j' -> Good P' j') ->
     (forall P', nonunion P' = true -> okty P' = true -> pvalid P' j -> Good P' j) ->
     exists n o, hrun py_str (structure n) h j = Ok o /\ has_type (PyUnion ms) o /\ NEq j (den o).
-Hypothesis T_hooks : forall ms h, lookup_uhook Sg (PyUnion ms) = Some h -> HookOK ms h.
+Hypothesis T_hooks : forall ms h, existsb (pty_eqb (PyUnion ms)) GU = true -> lookup_uhook Sg (PyUnion ms) = Some h -> HookOK ms h.
 
 Lemma good_mono P j n o m : n <= m -> structure n P j = Ok o -> structure m P j = Ok o.
 Proof. apply structure_mono_le. Qed.
@@ -320,12 +323,12 @@ Proof.
     exact (IH NDr I).
 Qed.
 
-Lemma cls_case c fs m : lookup_cls Sg c = Some fs -> NoDup (keys m) ->
+Lemma cls_case c fs m : mem c GC = true -> lookup_cls Sg c = Some fs -> NoDup (keys m) ->
   (forall k v, In (k, v) m -> exists f, In f fs /\ fwire f = k /\ jvalidate f v = true /\ Good (ftype f) v) ->
   (forall f, In f fs -> must_present Sg f = true -> In (fwire f) (keys m)) ->
   Good (PyCls c) (JObj m).
 Proof.
-  intros L NDm Hp Hr. destruct (T_wires c fs L) as [NDw [NDn Hw]].
+  intros InG L NDm Hp Hr. destruct (T_wires c fs InG L) as [NDw [NDn Hw]].
   (* one fuel for all present values *)
   set (lst := flat_map (fun kv : string * json => match find (fun g => String.eqb (fwire g) (fst kv)) fs with Some f => [(ftype f, snd kv)] | None => [] end) m).
   destruct (good_list lst) as [n Hn].
@@ -342,13 +345,13 @@ Proof.
       { apply in_flat_map. exists (fwire f, v). split; [exact Iv|]. cbn [fst snd]. rewrite (find_wire fs (fwire f) f NDw If eq_refl). left. reflexivity. }
       cbn [fst snd] in S, T, N. exists (fname f, o). split.
       + rewrite (sfield_present (structure n) m f v A). rewrite S. reflexivity.
-      + unfold Rf. rewrite A. cbn [fst snd]. repeat split; auto. exact (T_val c fs f v o n L If S Jv).
+      + unfold Rf. rewrite A. cbn [fst snd]. repeat split; auto. exact (T_val c fs f v o n InG L If S Jv).
     - assert (MP : must_present Sg f = false).
       { destruct (must_present Sg f) eqn:MP; [|reflexivity]. exfalso. apply assoc_none in A. apply A. apply Hr; assumption. }
       assert (D : fdefault f = DefaultNone) by (unfold must_present in MP; destruct (fdefault f); try discriminate; reflexivity).
       assert (TN : has_type (ftype f) VNone).
       { unfold must_present in MP. rewrite D in MP. apply negb_false_iff in MP. exact (proj2 (typed_b_sound Sg 3) _ _ MP). }
-      pose proof (T_defaults c fs f L If) as TV. rewrite D in TV.
+      pose proof (T_defaults c fs f InG L If) as TV. rewrite D in TV.
       exists (fname f, VNone). split.
       + pose proof (absent_reads_default (structure n) m f A) as AR. rewrite D in AR. apply AR. discriminate.
       + unfold Rf. rewrite A. cbn [fst snd]. repeat split; auto.
@@ -404,7 +407,7 @@ Proof.
       destruct (PW f If) as [x [Ax [R [Pin _]]]]. destruct R as [_ [_ [_ RN]]]. rewrite Ef, A in RN. cbn [snd] in RN.
       exists (den x). split; [|exact RN]. apply in_assoc_nodup; [exact NDp|]. rewrite <- Ef. apply Pin.
       destruct (fomit f) eqn:Of; [|reflexivity]. cbn [andb].
-      pose proof (T_defaults c fs f L If) as TD. destruct (fdefault f) eqn:D; [reflexivity | | rewrite Of in TD; discriminate].
+      pose proof (T_defaults c fs f InG L If) as TD. destruct (fdefault f) eqn:D; [reflexivity | | rewrite Of in TD; discriminate].
       destruct x; try reflexivity. cbn [Denote.den] in RN. inversion RN; subst. congruence.
     + intros k b B Nb. pose proof (assoc_in _ _ _ B) as Ib.
       assert (exists f, In f fs /\ fwire f = k) as [f [If Ef]].
@@ -509,8 +512,9 @@ Proof.
     - apply dict_case; [exact ND|]. intros a b I. apply SUB; [exact (jsize_in_obj a b m I) | | exact (HM a b I)].
       unfold okty in *. cbn [flat_ty handled] in O. apply andb_true_iff in O. destruct O as [O1 O2].
       apply andb_true_iff in O1. apply andb_true_iff in O2. rewrite (proj2 O1), (proj2 O2). reflexivity.
-    - apply (cls_case c fs m L ND); [|exact HR]. intros k0 v I. destruct (HP k0 v I) as [f [If [Ef [Vf Jf]]]].
-      exists f. repeat split; auto. apply SUB; [exact (jsize_in_obj k0 v m I) | exact (T_fields c fs f L If) | exact Vf].
+    - assert (InG : mem c GC = true) by (unfold okty in O; cbn [flat_ty handled andb] in O; exact O).
+      apply (cls_case c fs m InG L ND); [|exact HR]. intros k0 v I. destruct (HP k0 v I) as [f [If [Ef [Vf Jf]]]].
+      exists f. repeat split; auto. apply SUB; [exact (jsize_in_obj k0 v m I) | exact (T_fields c fs f InG L If) | exact Vf].
     - discriminate. }
   (* B: all annotations *)
   intros P O V. destruct (nonunion P) eqn:NU; [exact (A P NU O V)|].
@@ -518,7 +522,7 @@ Proof.
   pose proof (okty_flat _ O) as FL. pose proof (okty_handled _ O) as HD. cbn [flat_ty] in FL. cbn [handled] in HD.
   rewrite forallb_forall in FL.
   destruct (lookup_uhook Sg (PyUnion ms)) as [h|] eqn:U.
-  - destruct (T_hooks ms h U j V) as [n [o [Hh [Ht Hn]]]].
+  - destruct (T_hooks ms h HD U j V) as [n [o [Hh [Ht Hn]]]].
     + intros j' P' Lj FP VP. apply SUB; auto.
     + intros P' NP FP VP. apply A; auto.
     + exists (S n), o. cbn [Sem.structure step]. rewrite U. auto.
@@ -564,6 +568,8 @@ End Round.
 Section Table.
 Variable Sg : sigma.
 Variable py_str : json -> string.
+Variable GC : list string.
+Variable GU : list pty.
 
 Definition val_shape_ok (f : fld) : bool :=
   match fval f with
@@ -574,14 +580,14 @@ Definition val_shape_ok (f : fld) : bool :=
   | VIsFloat => direct_b Sg (ftype f) PyFloat
   | VIn _ => (pty_eqb (ftype f) PyStr || match ftype f with PyLit _ => true | _ => false end) && negb (fvalopt f) end.
 Definition field_ok (f : fld) : bool :=
-  String.eqb (fwireo f) (fwire f) && okty Sg (ftype f) && val_shape_ok f &&
+  String.eqb (fwireo f) (fwire f) && okty Sg GC GU (ftype f) && val_shape_ok f &&
   match fdefault f with
   | DefaultNone => (match fval f with VNoVal => true | _ => fvalopt f end)
   | DefaultStr _ => negb (fomit f)
   | NoDefault => true end.
 Definition class_ok (c : string * list fld) : bool :=
   nodupb (map fwire (snd c)) && nodupb (map fname (snd c)) && forallb field_ok (snd c).
-Definition table_ok : bool := negb (forbid_extra Sg) && forallb class_ok (classes Sg).
+Definition table_ok : bool := negb (forbid_extra Sg) && forallb (fun c => negb (mem (fst c) GC) || class_ok c) (classes Sg).
 
 Lemma lookup_in c fs : lookup_cls Sg c = Some fs -> In (c, fs) (classes Sg).
 Proof. apply assoc_in. Qed.
@@ -605,30 +611,32 @@ Qed.
 
 Theorem table_ok_sound : table_ok = true ->
   forbid_extra Sg = false /\
-  (forall c fs, lookup_cls Sg c = Some fs -> NoDup (map fwire fs) /\ NoDup (map fname fs) /\ (forall f, In f fs -> fwireo f = fwire f /\ flat_ty (ftype f) = true)) /\
-  (forall c fs f, lookup_cls Sg c = Some fs -> In f fs ->
+  (forall c fs, mem c GC = true -> lookup_cls Sg c = Some fs -> NoDup (map fwire fs) /\ NoDup (map fname fs) /\ (forall f, In f fs -> fwireo f = fwire f /\ flat_ty (ftype f) = true)) /\
+  (forall c fs f, mem c GC = true -> lookup_cls Sg c = Some fs -> In f fs ->
      match fdefault f with
      | DefaultNone => fval f = VNoVal \/ fvalopt f = true
      | DefaultStr _ => fomit f = false | NoDefault => True end) /\
-  (forall c fs f v x n, lookup_cls Sg c = Some fs -> In f fs -> structure Sg py_str n (ftype f) v = Ok x -> jvalidate f v = true -> validate (fval f) (fvalopt f) x = true) /\
-  (forall c fs f, lookup_cls Sg c = Some fs -> In f fs -> okty Sg (ftype f) = true).
+  (forall c fs f v x n, mem c GC = true -> lookup_cls Sg c = Some fs -> In f fs -> structure Sg py_str n (ftype f) v = Ok x -> jvalidate f v = true -> validate (fval f) (fvalopt f) x = true) /\
+  (forall c fs f, mem c GC = true -> lookup_cls Sg c = Some fs -> In f fs -> okty Sg GC GU (ftype f) = true).
 Proof.
   unfold table_ok. intros H. apply andb_true_iff in H. destruct H as [HE HC]. apply negb_true_iff in HE. rewrite forallb_forall in HC.
-  assert (FO : forall c fs f, lookup_cls Sg c = Some fs -> In f fs -> field_ok f = true).
-  { intros c fs f L If. specialize (HC _ (lookup_in c fs L)). unfold class_ok in HC. cbn [snd] in HC.
+  assert (CK : forall c fs, mem c GC = true -> lookup_cls Sg c = Some fs -> class_ok (c, fs) = true).
+  { intros c fs InG L. specialize (HC _ (lookup_in c fs L)). cbn [fst] in HC. rewrite InG in HC. exact HC. }
+  assert (FO : forall c fs f, mem c GC = true -> lookup_cls Sg c = Some fs -> In f fs -> field_ok f = true).
+  { intros c fs f InG L If. pose proof (CK c fs InG L) as HC'. clear HC. rename HC' into HC. unfold class_ok in HC. cbn [snd] in HC.
     apply andb_true_iff in HC. destruct HC as [_ HF]. rewrite forallb_forall in HF. exact (HF f If). }
   split; [exact HE|]. split; [|split; [|split]].
-  - intros c fs L. specialize (HC _ (lookup_in c fs L)). unfold class_ok in HC. cbn [snd] in HC.
+  - intros c fs InG L. pose proof (CK c fs InG L) as HC'. clear HC. rename HC' into HC. unfold class_ok in HC. cbn [snd] in HC.
     apply andb_true_iff in HC. destruct HC as [HC HF]. apply andb_true_iff in HC. destruct HC as [H1 H2].
     split; [apply nodupb_NoDup; exact H1|]. split; [apply nodupb_NoDup; exact H2|].
     intros f If. rewrite forallb_forall in HF. specialize (HF f If). unfold field_ok in HF.
     repeat (apply andb_true_iff in HF; destruct HF as [HF ?]). apply String.eqb_eq in HF. split; [exact HF|].
-    match goal with Hk : okty Sg (ftype f) = true |- _ => exact (proj1 (proj1 (andb_true_iff _ _) Hk)) end.
-  - intros c fs f L If. pose proof (FO c fs f L If) as F. unfold field_ok in F.
+    match goal with Hk : okty Sg GC GU (ftype f) = true |- _ => exact (proj1 (proj1 (andb_true_iff _ _) Hk)) end.
+  - intros c fs f InG L If. pose proof (FO c fs f InG L If) as F. unfold field_ok in F.
     apply andb_true_iff in F. destruct F as [_ F]. destruct (fdefault f); [exact I | |].
     + destruct (fval f); auto.
     + apply negb_true_iff in F. exact F.
-  - intros c fs f v x n L If HS J. pose proof (FO c fs f L If) as F. unfold field_ok in F.
+  - intros c fs f v x n InG L If HS J. pose proof (FO c fs f InG L If) as F. unfold field_ok in F.
     apply andb_true_iff in F. destruct F as [F _]. apply andb_true_iff in F. destruct F as [_ VS].
     unfold val_shape_ok in VS. unfold jvalidate in J. unfold validate.
     destruct (fval f) eqn:K.
@@ -670,7 +678,7 @@ Proof.
         destruct v; try discriminate J. inversion HS; subst. exact J.
       * destruct (ftype f); try discriminate VS. destruct n as [|n]; [discriminate|]. cbn in HS.
         destruct v; try discriminate J. destruct (mem s l0); inversion HS; subst. exact J.
-  - intros c fs f L If. pose proof (FO c fs f L If) as F. unfold field_ok in F.
+  - intros c fs f InG L If. pose proof (FO c fs f InG L If) as F. unfold field_ok in F.
     repeat (apply andb_true_iff in F; destruct F as [F ?]). assumption.
 Qed.
 End Table.
